@@ -129,7 +129,7 @@ import (
 // covered without touching the contract.
 
 //@ funcs ^convertToInt(64|32|16|8)$
-//@   prop C13
+//@   prop C13, C14
 //@   nilable source
 //@   ensures ints: forallT T in ints :: typeis(source, T) ==> ((err == nil && !wasNil && Z(val) == Z(unbox(source, T))) || (err != nil && !InRange(val, Z(unbox(source, T)))))
 //@   ensures ptrs: forallT T in ints :: typeis(source, *T) ==> ite(isnil(unbox(source, *T)), wasNil && err == nil, (err == nil && !wasNil && Z(val) == Z(old(*unbox(source, *T)))) || (err != nil && !InRange(val, Z(old(*unbox(source, *T))))))
@@ -138,10 +138,26 @@ import (
 //@   ensures null: source == nil ==> wasNil && err == nil
 
 //@ funcs ^convertFromInt(64|32|16|8)$
-//@   prop C13
+//@   prop C13, C14
 //@   ensures ints: forallT T in ints :: typeis(dest, *T) && !isnil(unbox(dest, *T)) ==> ite(wasNull, err == nil && Z(*unbox(dest, *T)) == 0, (err == nil && Z(*unbox(dest, *T)) == Z(val)) || (err != nil && !InRange(T, Z(val))))
 //@   ensures big: typeis(dest, *big.Int) && !isnil(unbox(dest, *big.Int)) && err == nil ==> bigval(unbox(dest, *big.Int)) == ite(wasNull, 0, Z(val))
 //@   ensures str: typeis(dest, *string) && !isnil(unbox(dest, *string)) && !wasNull && err == nil ==> strnum(*unbox(dest, *string)) == Z(val)
+//@   ensures nildest: forallT T in ints :: typeis(dest, *T) && isnil(unbox(dest, *T)) ==> err != nil
+
+// varint: every Go integer representation becomes the big integer of the same mathematical value (unsigned types
+// included, at full width), and back.
+//@ func convertToBigInt
+//@   prop C13, C11, C14
+//@   nilable source
+//@   ensures ints: forallT T in ints :: typeis(source, T) ==> err == nil && val != nil && bigval(val) == Z(unbox(source, T))
+//@   ensures ptrs: forallT T in ints :: typeis(source, *T) ==> err == nil && ite(isnil(unbox(source, *T)), val == nil, val != nil && bigval(val) == Z(old(*unbox(source, *T))))
+//@   ensures null: source == nil ==> val == nil && err == nil
+
+//@ func convertFromBigInt
+//@   prop C13, C11, C14
+//@   nilable val
+//@   requires value: !wasNull ==> val != nil
+//@   ensures ints: forallT T in ints :: typeis(dest, *T) && !isnil(unbox(dest, *T)) ==> ite(wasNull, err == nil && Z(*unbox(dest, *T)) == 0, (err == nil && Z(*unbox(dest, *T)) == bigval(val)) || (err != nil && !InRange(T, bigval(val))))
 //@   ensures nildest: forallT T in ints :: typeis(dest, *T) && isnil(unbox(dest, *T)) ==> err != nil
 
 //@ func float64ToFloat32
@@ -151,7 +167,7 @@ import (
 //@   assigns nothing
 
 //@ func convertToFloat32
-//@   prop C13
+//@   prop C13, C14
 //@   nilable source
 //@   ensures f64: typeis(source, float64) && err == nil ==> !wasNil && same(float64(val), unbox(source, float64))
 //@   ensures f32: typeis(source, float32) ==> err == nil && !wasNil && same(val, unbox(source, float32))
@@ -160,7 +176,7 @@ import (
 //@   ensures null: source == nil ==> wasNil && err == nil
 
 //@ func convertToFloat64
-//@   prop C13
+//@   prop C13, C14
 //@   nilable source
 //@   ensures f64: typeis(source, float64) ==> err == nil && !wasNil && same(val, unbox(source, float64))
 //@   ensures f32: typeis(source, float32) ==> err == nil && !wasNil && same(val, float64(unbox(source, float32)))
@@ -169,25 +185,25 @@ import (
 //@   ensures null: source == nil ==> wasNil && err == nil
 
 //@ func convertFromFloat32
-//@   prop C13
+//@   prop C13, C14
 //@   ensures p64: typeis(dest, *float64) && !isnil(unbox(dest, *float64)) ==> err == nil && same(*unbox(dest, *float64), ite(wasNull, float64(0), float64(val)))
 //@   ensures p32: typeis(dest, *float32) && !isnil(unbox(dest, *float32)) ==> err == nil && same(*unbox(dest, *float32), ite(wasNull, float32(0), val))
 
 //@ func convertFromFloat64
-//@   prop C13
+//@   prop C13, C14
 //@   ensures p64: typeis(dest, *float64) && !isnil(unbox(dest, *float64)) ==> err == nil && same(*unbox(dest, *float64), ite(wasNull, float64(0), val))
 //@   ensures p32: typeis(dest, *float32) && !isnil(unbox(dest, *float32)) ==> ite(wasNull, err == nil && same(*unbox(dest, *float32), float32(0)), (err == nil && same(float64(*unbox(dest, *float32)), val)) || (err != nil && !(float64(float32(val)) == val)))
 
 // Date, time and timestamp accept every integer representation by falling through to the integer dispatchers.
 
 //@ funcs ^convertTo(Int32Date|Int64Time|Int64Timestamp)$
-//@   prop C13
+//@   prop C13, C14
 //@   nilable location, source
 //@   ensures ints: forallT T in ints :: typeis(source, T) ==> ((err == nil && !wasNil && Z(val) == Z(unbox(source, T))) || (err != nil && !InRange(val, Z(unbox(source, T)))))
 //@   ensures ptrs: forallT T in ints :: typeis(source, *T) ==> ite(isnil(unbox(source, *T)), wasNil && err == nil, (err == nil && !wasNil && Z(val) == Z(old(*unbox(source, *T)))) || (err != nil && !InRange(val, Z(old(*unbox(source, *T))))))
 
 //@ funcs ^convertFrom(Int32Date|Int64Time|Int64Timestamp)$
-//@   prop C13
+//@   prop C13, C14
 //@   nilable location
 //@   ensures ints: forallT T in ints :: typeis(dest, *T) && !isnil(unbox(dest, *T)) ==> ite(wasNull, err == nil && Z(*unbox(dest, *T)) == 0, (err == nil && Z(*unbox(dest, *T)) == Z(val)) || (err != nil && !InRange(T, Z(val))))
 
